@@ -222,8 +222,11 @@ def tasks(tier, seed):
         [(f, tz, neg) for f in EPOCH for tz in EPOCH_TZ for neg in (False, True)]
     for f, tz, neg in eps:
         add("epoch:%s:%s:%s" % (f, tz, "neg" if neg else "pos"), "h_epoch", {"form": f, "tz": tz, "negative": neg}, 200)
-    dz = ["America/New_York", "Europe/Paris", "Australia/Lord_Howe", "Asia/Kolkata"]
-    for j, z in enumerate(dz if not quick else [dz[seed % len(dz)]]):
+    from . import zones
+    win = [2021, 2021] if quick else [1971, 2036]
+    dz = [z for z in ["America/New_York", "Europe/Paris", "Australia/Lord_Howe", "Asia/Kolkata"]
+          if zones.usable(z, win[0] - 1, win[1] + 1)]
+    for j, z in enumerate(dz if not quick else dz[seed % max(1, len(dz)):][:1]):
         add("epoch:epoch_ms:%s:pos" % z, "h_epoch", {"form": "epoch_ms", "tz": z, "negative": False,
                                                        "window": [2021, 2021] if quick else [1971, 2036]}, 200)
     return out
